@@ -98,6 +98,11 @@ def gen_cases(rng, tier):
         for ents in exhaustive_core(shape, maxent):
             cases.append({'kind': 'get', 'obj': G.gen_object(rng, shape, nderiv=rng.choice([0, 0, 0, 1])),
                           'index': ents, 'src': 'core'})
+    for what in G.HIST_FLOATS:          # float index objects that descend from an integer one: always rejected
+        for shape in ((4,), (2, 3)):
+            cases.append({'kind': 'get', 'obj': G.gen_object(rng, shape), 'index': [{'k': 'bad', 'what': what}], 'src': 'core'})
+            cases.append({'kind': 'get', 'obj': G.gen_object(rng, shape),
+                          'index': [{'k': 'slice', 'a': None, 'b': None, 'c': None}, {'k': 'bad', 'what': what}][:len(shape)], 'src': 'core'})
     nrand = 12000 if tier == 'quick' else 120000
     for _ in range(nrand):
         shape = rng.choice(G.LEAD_SHAPES)
